@@ -6,7 +6,8 @@ C06, frame level: what ONE attempt (`run_request_once` = one call of `Connection
 Import-free (core only).
 
   * QUERY without values (`scylla/src/network/connection.rs:882-…`): one QUERY frame; its answer is the attempt's outcome.
-  * QUERY WITH values (`scylla/src/client/session.rs:1424-1438`; the pager does the same): per attempt
+  * QUERY WITH values (`scylla/src/client/session.rs:1424-1438`, `query_unpaged` / `query_single_page` only - `query_iter`
+    with values prepares ONCE on the session, `session.rs:1543`, and then pages with EXECUTE like `execute_iter`): per attempt
     `connection.prepare(statement)` (one PREPARE frame; error ⇒ the attempt fails with it, nothing else is sent) and
     then `execute_raw_with_consistency` — the EXECUTE arm below.
   * EXECUTE (`connection.rs:1046-1147`): one EXECUTE frame; if it is answered `DbError::Unprepared` (`:1102-1105`) the
